@@ -489,6 +489,17 @@ def run(ctx):
         ctx.violation({"layer": "model extraction", "error": runner}, "extraction of the C20 models failed", no_input=True)
         return
     st = Stats()
+    # at most 3 reports per kind of violation (a systematic defect would otherwise flood the output)
+    import re
+    orig_violation = ctx.violation
+    counts = {}
+
+    def capped(replay, summary, no_input=False):
+        kind = re.sub(r"0x[0-9a-f]+|[0-9a-f]{16,}|\d+|\[[^\]]*\]", "#", summary)[:70]
+        counts[kind] = counts.get(kind, 0) + 1
+        if counts[kind] <= 3:
+            orig_violation(replay, summary, no_input)
+    ctx.violation = capped
     if getattr(ctx, "replay", None):
         replay(ctx, binp, runner, st)
     else:
@@ -500,6 +511,9 @@ def run(ctx):
                 ctx.violation({"layer": "correspondence", "section": name, "exception": repr(e)},
                               "correspondence section %s failed: %r" % (name, e), no_input=True)
             ctx.log("section", name, "done")
+    ctx.violation = orig_violation
+    if any(v > 3 for v in counts.values()):
+        ctx.notes["violations_beyond_cap"] = {k: v - 3 for k, v in counts.items() if v > 3}
     ctx.cov["evaluations"] += st.evals
     ctx.cov["traces_validated_against_impl"] += st.traces
     ctx.cov["distinct_nontrivial"] = len(st.nontrivial)
